@@ -123,6 +123,20 @@ class View:
             res.append((comments, bool(_BLANK_RE.search(_COMMENT_RE.sub("", gap)))))
         return res
 
+    def let_head_comments(self):
+        """Per enclosing let (outermost first): the comment that shares the line with the `let` keyword, or None."""
+        res = []
+        src = self.tree.src
+        for ln in self.let_nodes:
+            kw = next((k for k in ln.children if k.type == "let"), None)
+            if kw is None:
+                res.append(None)
+                continue
+            eol = src.find(b"\n", kw.end_byte)
+            rest = src[kw.end_byte : len(src) if eol == -1 else eol].decode("utf-8", "replace").strip()
+            res.append(rest if rest.startswith(("#", "/*")) else None)
+        return res
+
     def lets_adjacent(self) -> bool:
         """True when every enclosing let sits directly in front of the core (no other wrapper in between)."""
         # kinds is the wrapper chain from the root to the core; lets adjacent <=> all 'let' entries form the tail
